@@ -779,7 +779,11 @@ static void exec_action(gw_edge *e) {
         if (!strcmp(kd, "fd")) r = reg ? m_mod_src_register_fd(H[m], ufd_r[key], fl, ud) : m_mod_src_deregister_fd(H[m], ufd_r[key]);
         else if (!strcmp(kd, "tmr")) { m_src_tmr_t t = {CLOCK_MONOTONIC, TMR_NS[key]}; r = reg ? m_mod_src_register_tmr(H[m], &t, fl, ud) : m_mod_src_deregister_tmr(H[m], &t); }
         else if (!strcmp(kd, "sgn")) { m_src_sgn_t g = {(unsigned)SIGS[key]}; r = reg ? m_mod_src_register_sgn(H[m], &g, fl, ud) : m_mod_src_deregister_sgn(H[m], &g); }
-        else if (!strcmp(kd, "path")) { m_src_path_t pt = {PATHS[key], IN_CREATE}; r = reg ? m_mod_src_register_path(H[m], &pt, fl, ud) : m_mod_src_deregister_path(H[m], &pt); }
+        else if (!strcmp(kd, "path")) {
+            /* the path is the key: the event mask varies from call to call (and is left empty on deregistration) and must not matter */
+            static VP_TLS unsigned path_calls;
+            m_src_path_t pt = {PATHS[key], reg ? (IN_CREATE | (path_calls++ % 2 ? IN_DELETE : 0)) : 0};
+            r = reg ? m_mod_src_register_path(H[m], &pt, fl, ud) : m_mod_src_deregister_path(H[m], &pt); }
         else if (!strcmp(kd, "pid")) { m_src_pid_t pd = {kid_of(key), 0}; r = reg ? m_mod_src_register_pid(H[m], &pd, fl, ud) : m_mod_src_deregister_pid(H[m], &pd); }
         else if (!strcmp(kd, "task")) {
             task_slot *t = &TK[m][key];
@@ -1052,6 +1056,8 @@ static void probe_evt(m_mod_t *self, const m_queue_t *const e) {}
 static void measure_order(void) {
     static const char *cand[NM] = {"mod_a", "mod_b", "mod_c", "mod_d"};
     for (int i = 0; i < nmods; i++) snprintf(RN[i], sizeof RN[i], "%s", cand[i]);
+    /* VP_NAMES="db,fs": real module names chosen by the configuration (names that share a bucket of the context's module table) */
+    if (getenv("VP_NAMES")) { const char *c = getenv("VP_NAMES"); for (int i = 0; i < nmods && *c; i++) { size_t k = 0; while (*c && *c != ',' && k < sizeof RN[i] - 1) RN[i][k++] = *c++; RN[i][k] = 0; if (*c == ',') c++; } }
     m_mod_hook_t hk = {.on_eval = probe_eval, .on_evt = probe_evt};
     m_mod_t *h[NM] = {0};
     m_ctx_register("probe", 0, NULL);
